@@ -17,7 +17,7 @@ pub static mut NDEALLOC: usize = 0;
 /// A-cut: paths that need the global allocator are outside the harness's bound.
 pub unsafe fn alloc_cut(_l: Layout) -> *mut u8 {
     if FORBID_ALLOC {
-        assert!(false, "[C06,C11,C18] a request that must be served from the current chunk went to the global allocator");
+        vassert!(false, "NEVER: [C06,C11,C18] a request that must be served from the current chunk went to the global allocator");
     }
     kani::assume(false);
     ptr::null_mut()
@@ -26,7 +26,7 @@ pub unsafe fn alloc_cut(_l: Layout) -> *mut u8 {
 /// A-null: the global allocator refuses everything; requests are logged.
 pub unsafe fn alloc_null(l: Layout) -> *mut u8 {
     if FORBID_ALLOC {
-        assert!(false, "[C06,C11,C18] a request that must be served from the current chunk went to the global allocator");
+        vassert!(false, "NEVER: [C06,C11,C18] a request that must be served from the current chunk went to the global allocator");
     }
     if NLOG < LOGN {
         LOG[NLOG] = (l.size(), l.align());
@@ -224,7 +224,7 @@ pub unsafe fn cno_range_only<T>(src: *const T, dst: *mut T, count: usize) {
     let n = count * core::mem::size_of::<T>();
     let s = src as usize;
     let d = dst as usize;
-    assert!(s + n <= d || d + n <= s, "[C02,C12] copy_nonoverlapping called on overlapping ranges");
+    vassert!(s + n <= d || d + n <= s, "NEVER: [C02,C12] copy_nonoverlapping called on overlapping ranges");
     COPY_CALLS += 1;
     COPY_SRC = s;
     COPY_DST = d;
@@ -244,8 +244,8 @@ pub unsafe fn cno_loop<T>(src: *const T, dst: *mut T, count: usize) {
     let n = count * core::mem::size_of::<T>();
     let s = src as *const u8;
     let d = dst as *mut u8;
-    assert!((s as usize) + n <= d as usize || (d as usize) + n <= s as usize,
-            "[C02,C12] copy_nonoverlapping called on overlapping ranges");
+    vassert!((s as usize) + n <= d as usize || (d as usize) + n <= s as usize,
+            "NEVER: [C02,C12] copy_nonoverlapping called on overlapping ranges");
     let mut i = 0;
     while i < n {
         *d.add(i) = *s.add(i);
@@ -339,7 +339,7 @@ pub static mut FORBID_ALLOC: bool = false;
 
 pub unsafe fn alloc_pool(l: Layout) -> *mut u8 {
     if FORBID_ALLOC {
-        assert!(false, "[C06,C11,C18] a request that must be served from the current chunk went to the global allocator");
+        vassert!(false, "NEVER: [C06,C11,C18] a request that must be served from the current chunk went to the global allocator");
         kani::assume(false);
     }
     if NLOG < LOGN {
@@ -368,11 +368,9 @@ pub unsafe fn alloc_pool(l: Layout) -> *mut u8 {
     // concrete offset whatever candidate size was accepted.  With start-aligned placement
     // the footer address is an if-then-else over the accepted candidate, i.e. a
     // symbolic-offset pointer, and every later access costs O(object size) (out of memory).
-    let off = SLOT - d - l.size();
-    if off & (a - 1) != 0 {
-        // this slot cannot give the requested alignment at this displacement: refusal
-        return ptr::null_mut();
-    }
+    // (rounded down to the requested alignment; for the sizes bumpalo asks for, 2^j - 16, and
+    // SLOT = 48 mod 64 this is the exact end-aligned position)
+    let off = (SLOT - d - l.size()) & !(a - 1);
     let p = slot_base(NREC).add(off);
     LEDGER[NREC] = Rec { ptr: p as usize, size: l.size(), align: a, live: true };
     NREC += 1;
